@@ -44,7 +44,11 @@ def register(w):
     c.props.add("C13")
     replace(P + "wap.py::WAPProtocol.getrenderstr", WAP, params=dict(E, url="str"), requires=["self.accesskeyidx >= 0"],
             modifies=["self.accesskeyidx", "self.postfieldidx"], raises={}, returns="str",
-            ensures=["markup_safe(result)", "self.accesskeyidx >= old(self.accesskeyidx)"], props=["C13", "C03", "C04", "C20"])
+            ensures=["markup_safe(result)", "self.accesskeyidx >= old(self.accesskeyidx)",
+                     "implies(url.startswith('/') and entry.type != 'i' and entry.type != '7', ('href=\"' + html.escape(self.waptop + url) + '\">') in result)",
+                     "implies(not url.startswith('/') and entry.type != 'i' and entry.type != '7', ('href=\"' + html.escape(url) + '\">') in result)"],
+            props=["C13", "C03", "C04", "C20", "C05"],
+            note="C05: EVERY local link (path starting with '/') is advertised under the WAP prefix that canhandlerequest strips again, whatever the name looks like")
     replace(P + "wap.py::WAPProtocol.renderdirstart", WAP, params=E, modifies=["self.accesskeyidx", "self.postfieldidx"], raises={}, returns="str",
             ensures=["markup_safe(result)", "self.accesskeyidx == 0", "self.postfieldidx == 0"], props=["C13", "C03", "C04", "C20"])
     # the shared directory writer keeps the WAP access-key counter non-negative
@@ -85,3 +89,36 @@ def register_wap(w):
                               havoc=["wfile.delta", "wfile.written", "fakefile.pos"], decreases="len(fakefile.written) - fakefile.pos")},
                ensures_internal=["implies(self.needsconversion != 0, markup_safe(wfile.delta))"],
                note="text-to-WML conversion: every line of the document is html.escape()d; the loop terminates", props=["C13", "C04", "C03"])
+
+    register_mail(w)
+
+
+def _setup_message(eng, fr):
+    """`message`: an email.message.Message whose get() yields a str or an email.header.Header."""
+    import z3
+    from pyvc.values import VOpaque, VStr, U
+
+    def get(eng2, o, args, kwargs, node):
+        if eng2.branch_fresh("subject_is_header"):
+            h = VOpaque("Header", z3.Const(eng2.fresh_name("subject_header"), U))
+            h.attrs["typename"] = None
+            return h
+        return VStr(z3.String(eng2.fresh_name("subject")))
+
+    m = VOpaque("message", z3.Const(eng.fresh_name("message"), U))
+    m.attrs["methods"] = {"get": get}
+    fr.locals["message"] = m
+
+
+def register_mail(w):
+    H = "pygopherd/handlers/"
+    w.contract(H + "mbox.py::MessageHandler.getmessage", selfclass=["MBoxMessageHandler", "MaildirMessageHandler"], modifies=["self.message"], raises={"Exception": True},
+               returns="opaque:message", assumed=True, props=["C13"], note="reads the mailbox (mailbox module): external")
+    w.contract(H + "mbox.py::MessageHandler.getentry", selfclass=["MBoxMessageHandler", "MaildirMessageHandler"],
+               params={"message": "opaque:message"}, setup=_setup_message,
+               requires=["self.entry is None"], modifies=["self.entry"], raises={}, returns="obj:GopherEntry",
+               ensures=["result is self.entry", "result.name is not None and '\\r' not in result.name and '\\n' not in result.name and '\\t' not in result.name",
+                        "result.type == '0'", "result.selector == self.selector"],
+               props=["C13", "C15"],
+               note="a mail subject (content) becomes a menu entry name only after every run of white space - including CR, LF and TAB of folded or hostile "
+                    "headers - is collapsed to one blank: it can never break a menu line or start a Gopher+ block header")
